@@ -42,7 +42,10 @@ class ReportRequest:
             The channel name to use to identify the corresponding report channel
                 from the channel registry.
         """
-        return f"power_manager.report.{self.component_ids=}.{self.priority=}"
+        return (
+            f"power_manager.report.{self.component_ids=}.{self.priority=}"
+            f".{self.set_operating_point=}"
+        )
 
 
 @dataclasses.dataclass(frozen=True, kw_only=True)
